@@ -600,12 +600,16 @@ func ruleScanDiscipline(c *Ctx, rule string) {
 	classify := func(p *ssa.Phi, leaf ssa.Value) string {
 		str := linearString(leaf, s.norm)
 		self := selfName[p]
+		// `self` must be the loop-carried variable itself, not another variable that renders under the same name (the counter of an
+		// inner loop that advances the position further)
+		co, _ := linearOver(leaf)
+		isSelf := len(co) == 1 && co[p] == 1
 		switch {
 		case resumeField[p] != "" && str == "+"+resumeField[p]:
 			return "resume"
-		case str == "+"+self+" +1":
+		case str == "+"+self+" +1" && isSelf:
 			return "step"
-		case str == "+"+self:
+		case str == "+"+self && isSelf:
 			return "keep"
 		case p == s.col && str == "+1":
 			return "newline"
